@@ -353,6 +353,9 @@ func (p *path) addRule(
 	}
 
 	if y, ok := cursor.methods[verb]; ok || cursor.methodAll != nil {
+		if !ok {
+			y = cursor.methodAll // bound for every verb
+		}
 		if y.desc.FullName() != desc.FullName() {
 			return fmt.Errorf("duplicate rule %v", rule)
 		}
